@@ -1,11 +1,2 @@
-(* generated by harness/translate.py from forcefield_helper.py:167-179 -- do not edit *)
-From Coq Require Import Bool.
-From GBS Require Import Model.FF.
-Open Scope bool_scope.
-Definition cache_step (st : cache) (smarts_filename nb_filename : file) : cache :=
-  if ((is_none (g_cls st)) || (negb (file_eqb smarts_filename (g_smarts st))) || (negb (file_eqb nb_filename (g_nb st)))) then
-    let v1 := nb_filename in
-    let v2 := smarts_filename in
-    let v3 := Some (build v2 v1) in
-    {| g_cls := v3; g_nb := v1; g_smarts := v2 |}
-  else st.
+(* translator failed: get_assignment_class shape *)
+From GBS Require Import Model.PyStr.
